@@ -7,6 +7,7 @@ mod datetime;
 mod drd;
 mod icd;
 mod estimate;
+mod frames;
 mod latest;
 mod msghdr;
 mod search;
@@ -20,6 +21,7 @@ fn main() {
     let args = Args::parse();
     match args.module.as_str() {
         "sweep" => sweep::run(&args),
+        "frames" => frames::run(&args),
         "datetime" => datetime::run(&args),
         "msghdr" => msghdr::run(&args),
         "drd" => drd::run(&args),
